@@ -243,6 +243,71 @@ structure Closed (R : Schema → JV → Prop) : Prop where
   enumPayload : ∀ vs k x kvs, R (.enum_ vs) (.obj ((k, x) :: kvs)) → ∀ sh, (k, sh) ∈ vs → RShape R sh x
   enumExcl : ∀ vs k x, R (.enum_ vs) (.obj [(k, x)]) → ∀ fs, (k, VariantShape.struct_ fs) ∈ vs → ∀ xs, x ≠ .arr xs
 
+/-- `Q` is inherited along the sub-positions the induction visits (`Closed` without the exclusion) -/
+structure PosClosed (Q : Schema → JV → Prop) : Prop where
+  option : ∀ s v, Q (.option s) v → v ≠ .null → Q s v
+  newtype : ∀ s v, Q (.newtype s) v → Q s v
+  seq : ∀ s xs, Q (.seq s) (.arr xs) → ∀ x ∈ xs, Q s x
+  tuple : ∀ ss xs, Q (.tuple ss) (.arr xs) → TupR Q ss xs
+  map : ∀ k s kvs, Q (.map k s) (.obj kvs) → ∀ kv ∈ kvs, Q s kv.2
+  structArr : ∀ fs d xs, Q (.struct_ fs d) (.arr xs) → TupR Q (fs.map (·.2)) xs
+  structObj : ∀ fs d kvs, Q (.struct_ fs d) (.obj kvs) → ∀ kv ∈ kvs, ∀ i nm s,
+    FromValue.nameIndex (fieldNames fs) kv.1 = some i → fs[i]? = some (nm, s) → Q s kv.2
+  enumPayload : ∀ vs k x kvs, Q (.enum_ vs) (.obj ((k, x) :: kvs)) → ∀ sh, (k, sh) ∈ vs → RShape Q sh x
+
+theorem Closed.pos {R : Schema → JV → Prop} (h : Closed R) : PosClosed R :=
+  ⟨h.option, h.newtype, h.seq, h.tuple, h.map, h.structArr, h.structObj, h.enumPayload⟩
+
+theorem tupR_and {R Q : Schema → JV → Prop} : ∀ (ss : List Schema) (xs : List JV), TupR R ss xs → TupR Q ss xs →
+    TupR (fun s v => R s v ∧ Q s v) ss xs
+  | [], _, _, _ => trivial
+  | _ :: _, [], _, _ => trivial
+  | s :: ss, x :: xs, h1, h2 => ⟨⟨h1.1, h2.1⟩, tupR_and ss xs h1.2 h2.2⟩
+
+theorem rShape_and {R Q : Schema → JV → Prop} (sh : VariantShape) (x : JV) (h1 : RShape R sh x) (h2 : RShape Q sh x) :
+    RShape (fun s v => R s v ∧ Q s v) sh x := by
+  cases sh with
+  | unit => trivial
+  | newtype s => exact ⟨h1, h2⟩
+  | tuple ss => exact ⟨h1, h2⟩
+  | struct_ fs => exact ⟨h1, h2⟩
+
+/-- an admissibility invariant strengthened by an inherited condition -/
+theorem Closed.and {R Q : Schema → JV → Prop} (hR : Closed R) (hQ : PosClosed Q) : Closed (fun s v => R s v ∧ Q s v) where
+  option := fun s v h hn => ⟨hR.option s v h.1 hn, hQ.option s v h.2 hn⟩
+  newtype := fun s v h => ⟨hR.newtype s v h.1, hQ.newtype s v h.2⟩
+  seq := fun s xs h x hx => ⟨hR.seq s xs h.1 x hx, hQ.seq s xs h.2 x hx⟩
+  tuple := fun ss xs h => tupR_and ss xs (hR.tuple ss xs h.1) (hQ.tuple ss xs h.2)
+  map := fun k s kvs h kv hx => ⟨hR.map k s kvs h.1 kv hx, hQ.map k s kvs h.2 kv hx⟩
+  structArr := fun fs d xs h => tupR_and _ xs (hR.structArr fs d xs h.1) (hQ.structArr fs d xs h.2)
+  structObj := fun fs d kvs h kv hx i nm s h1 h2 =>
+    ⟨hR.structObj fs d kvs h.1 kv hx i nm s h1 h2, hQ.structObj fs d kvs h.2 kv hx i nm s h1 h2⟩
+  enumPayload := fun vs k x kvs h sh hm => rShape_and sh x (hR.enumPayload vs k x kvs h.1 sh hm) (hQ.enumPayload vs k x kvs h.2 sh hm)
+  enumExcl := fun vs k x h => hR.enumExcl vs k x h.1
+
+/-- a condition on the value alone, inherited by elements and members -/
+theorem posClosed_val (P : JV → Prop) (he : ∀ xs, P (.arr xs) → ∀ x ∈ xs, P x) (hm : ∀ kvs, P (.obj kvs) → ∀ kv ∈ kvs, P kv.2) :
+    PosClosed (fun _ v => P v) where
+  option := fun _ _ h _ => h
+  newtype := fun _ _ h => h
+  seq := fun _ xs h x hx => he xs h x hx
+  tuple := fun ss xs h => tupR_of_all' ss xs (he xs h)
+  map := fun _ _ kvs h kv hx => hm kvs h kv hx
+  structArr := fun fs _ xs h => tupR_of_all' _ xs (he xs h)
+  structObj := fun _ _ kvs h kv hx _ _ _ _ _ => hm kvs h kv hx
+  enumPayload := fun _ k x kvs h sh _ => by
+    have hx : P x := hm ((k, x) :: kvs) h (k, x) (by simp)
+    cases sh with
+    | unit => trivial
+    | newtype s => exact hx
+    | tuple ss => exact hx
+    | struct_ fs => exact hx
+where
+  tupR_of_all' : ∀ (ss : List Schema) (xs : List JV), (∀ x ∈ xs, P x) → TupR (fun _ v => P v) ss xs
+    | [], _, _ => trivial
+    | _ :: _, [], _ => trivial
+    | _ :: ss, x :: xs, h => ⟨h x (by simp), tupR_of_all' ss xs fun x' hx' => h x' (by simp [hx'])⟩
+
 variable (ext : Spec.Program.Ext)
 
 theorem tupAgree_of_tupR (R : Schema → JV → Prop) (de : Schema → Bytes → Nat → TOut) (fv : Schema → JV → FromValue.R) :
@@ -290,6 +355,163 @@ theorem keyAgree_frag {env : Env} (hflt : env.flt = false) (k : KeyKind) (hk : k
   | unitEnum names => exact keyAgree_unitEnum hflt names
   | int w => exact keyAgree_int ext hext hflt w
 
+/-- what the main induction needs of the leaves that READ A NUMBER (integer targets, `f64`, the `u8` elements of a byte
+    buffer) and of the `Value` target, relative to the invariant `R`: this is where the representation of numbers — integers
+    and floats, or literals under `arbitrary_precision` — enters; everything else is representation-independent -/
+structure Leaves (env : Env) (cfg' : FromValue.Cfg) (ext' : FromValue.Ext) (a : Bool) (R : Schema → JV → Prop) : Prop where
+  int : ∀ w v, R (.int w) v → VOKg v → Agree1w (deInt env w) (FromValue.fromValue cfg' ext' (.int w) v) (T ext v)
+  f64 : ∀ v, R .f64 v → VOKg v → Agree1w (deNumber env .f64) (FromValue.fromValue cfg' ext' .f64 v) (T ext v)
+  u8 : ∀ xs, R .bytes (.arr xs) → VOKg (.arr xs) → ∀ x ∈ xs,
+    Agree1w (deInt env .u8) (FromValue.fromValue cfg' ext' (.int .u8) x) (T ext x)
+  any : a = true → ∀ f t v, R .any v → VOKg v → DepthOK env t v →
+    Agree1w (deTyped env (f + 1) t .any) (FromValue.fromValue cfg' ext' .any v) (T ext v)
+
+/-- **the text leg on printed values, representation-independent core**: for an invariant `R` on (schema, value) pairs closed
+    under the positions visited and leaves that agree on the numbers (`Leaves`), every schema of the fragment and every value
+    of either build (`VOKg`) within the depth budget: the typed deserializer on the text `to_string` writes for the value
+    returns what `from_value` returns, and fails when it fails — or (`Agree1w`) returns inside a number, which every caller
+    rejects. `cfg'` is arbitrary: the `Value`-side configuration matters at the leaves only. -/
+theorem agree_core {env : Env} (hflt : env.flt = false) (cfg' : FromValue.Cfg)
+    (ext' : FromValue.Ext) (R : Schema → JV → Prop) (hR : Closed R) (hL : Leaves ext env cfg' ext' a R) :
+    ∀ (f : Nat) (s : Schema), Schema.size s ≤ f → fragP a s = true →
+      ∀ (t : Nat) (v : JV), VOKg v → DepthOK env t v → R s v →
+      Agree1w (deTyped env f t s) (FromValue.fromValue cfg' ext' s v) (T ext v) := by
+  intro f
+  induction f with
+  | zero => intro s hs; have := size_pos s; omega
+  | succ f ih =>
+    intro s hs hfr t v hv hd hr
+    cases s with
+    | bool => rw [deTyped_bool]; exact (agree_bool_g ext hext hflt cfg' ext' v hv).weak
+    | int w => rw [deTyped_int]; exact hL.int w v hr hv
+    | unit => rw [deTyped_unit]; exact (agree_unit_g ext hext hflt cfg' ext' v hv).weak
+    | unitStruct =>
+      rw [deTyped_unitStruct]
+      have := agree_unit_g ext hext hflt cfg' ext' v hv
+      exact Agree1.weak (by simpa [FromValue.fromValue] using this)
+    | char => rw [deTyped_char]; exact (agree_char_g ext hext hflt cfg' ext' v hv).weak
+    | string => rw [deTyped_string]; exact (agree_string_g ext hext hflt cfg' ext' v hv).weak
+    | bytes =>
+      rw [deTyped_bytes]
+      refine Agree1.weak (agree_bytes_g ext hext hflt cfg' ext' t v hv hd fun xs hxs x hx => ?_)
+      subst hxs
+      exact hL.u8 xs hr hv x hx
+    | ignored =>
+      rw [deTyped_ignored]
+      refine Agree1.weak ?_
+      intro rest pos hsep
+      simp only [FromValue.fromValue]
+      rw [ignoreValue_T_g ext hext env hflt v hv rest pos hsep]
+      rfl
+    | newtype s' =>
+      rw [deTyped_newtype]
+      have := ih s' (by simp only [Schema.size] at hs; omega) (by simpa [fragP] using hfr) t v hv hd (hR.newtype s' v hr)
+      simpa [FromValue.fromValue] using this
+    | option s' =>
+      exact agree_option_w ext hflt cfg' ext' s' f t v hv
+        (fun hnn => ih s' (by simp only [Schema.size] at hs; omega) (by simpa [fragP] using hfr) t v hv hd (hR.option s' v hr hnn))
+        (T_head_g ext hext v hv)
+    | seq s' =>
+      refine Agree1.weak (agree_seq ext hext hflt cfg' ext' s' f t v hv hd fun xs hxs x hx => ?_)
+      subst hxs
+      exact ih s' (by simp only [Schema.size] at hs; omega) (by simpa [fragP] using hfr) (t + 1) x (vokg_elem xs x hx hv)
+        (depthOK_elem t xs x hx hd) (hR.seq s' xs hr x hx)
+    | tuple ss =>
+      refine Agree1.weak (agree_tuple ext hext hflt cfg' ext' ss f t v hv hd fun xs hxs => ?_)
+      subst hxs
+      refine tupAgree_of_tupR ext R _ _ ss xs (fun s' hs' x hx hrx => ?_) (hR.tuple ss xs hr)
+      have hsz := size_mem_list ss s' hs'
+      exact ih s' (by simp only [Schema.size] at hs; omega) (agreeFrag2_mem ss s' hs' (by simpa [fragP] using hfr)) (t + 1) x
+        (vokg_elem xs x hx hv) (depthOK_elem t xs x hx hd) hrx
+    | map k s' =>
+      have hfr' : keyFrag k = true ∧ fragP a s' = true := by simpa [fragP] using hfr
+      refine Agree1.weak (agree_map ext hext hflt cfg' ext' k (keyAgree_frag ext hext hflt k hfr'.1) s' f t v hv hd fun kvs hkvs kv hx => ?_)
+      subst hkvs
+      exact ih s' (by simp only [Schema.size] at hs; omega) hfr'.2 (t + 1) kv.2
+        (vokg_member kvs kv hx hv).2 (depthOK_member t kvs kv hx hd) (hR.map k s' kvs hr kv hx)
+    | struct_ fs deny =>
+      have hfr' : fragPFields a fs = true := by simpa [fragP] using hfr
+      have hsize : ∀ s' ∈ fs.map (·.2), Schema.size s' ≤ f := by
+        intro s' hs'
+        obtain ⟨fld, hfld, rfl⟩ := List.mem_map.mp hs'
+        have := size_mem_fields fs fld hfld
+        simp only [Schema.size] at hs; omega
+      refine Agree1.weak (agree_struct ext hext hflt cfg' ext' fs deny f t v hv hd ?_ ?_)
+      · intro xs hxs
+        subst hxs
+        refine tupAgree_of_tupR ext R _ _ _ xs (fun s' hs' x hx hrx => ?_) (hR.structArr fs deny xs hr)
+        exact ih s' (hsize s' hs') (agreeFrag2_mem_fields fs s' hs' hfr') (t + 1) x (vokg_elem xs x hx hv)
+          (depthOK_elem t xs x hx hd) hrx
+      · intro kvs hkvs kv hx i nm s' hni hfi
+        subst hkvs
+        have hs' : s' ∈ fs.map (·.2) := List.mem_map.mpr ⟨(nm, s'), List.mem_of_getElem? hfi, rfl⟩
+        exact ih s' (hsize s' hs') (agreeFrag2_mem_fields fs s' hs' hfr') (t + 1) kv.2 (vokg_member kvs kv hx hv).2
+          (depthOK_member t kvs kv hx hd) (hR.structObj fs deny kvs hr kv hx i nm s' hni hfi)
+    | enum_ vs =>
+      have hfr' : fragPVariants a vs = true := by simpa [fragP] using hfr
+      refine Agree1.weak (agree_enum ext hext hflt cfg' ext' vs f t v hv hd ?_ ?_)
+      · intro k x kvs hkvs sh hmem
+        subst hkvs
+        have hshf := agreeFrag2_mem_variants vs k sh hmem hfr'
+        have hshsz := size_mem_variants vs (k, sh) hmem
+        have hrsh := hR.enumPayload vs k x kvs hr sh hmem
+        have hvk := (vokg_member ((k, x) :: kvs) (k, x) (by simp) hv).2
+        have hdk := depthOK_member t ((k, x) :: kvs) (k, x) (by simp) hd
+        simp only at hvk hdk
+        have hszs : ∀ s' ∈ shapeSchemas sh, Schema.size s' ≤ f := by
+          intro s' hs'
+          have := size_shape sh s' hs'
+          simp only [Schema.size] at hs
+          simp only at hshsz
+          omega
+        cases sh with
+        | unit =>
+          simp only [dePayload, payloadFV]
+          exact (agree_unit_g ext hext hflt cfg' ext' x hvk).weak
+        | newtype s' =>
+          simp only [dePayload, payloadFV]
+          exact ih s' (hszs s' (by simp [shapeSchemas])) (by simpa [fragPShape] using hshf) (t + 1) x hvk hdk hrsh
+        | tuple ss =>
+          have hfl : fragPList a ss = true := by
+            have : (!ss.isEmpty && fragPList a ss) = true := by simpa [fragPShape] using hshf
+            simp only [Bool.and_eq_true] at this; exact this.2
+          have : dePayload env (t + 1) (deTyped env f) (.tuple ss) = deTyped env (f + 1) (t + 1) (.tuple ss) := by
+            rw [deTyped_tuple]; rfl
+          rw [this]
+          simp only [payloadFV]
+          refine Agree1.weak (agree_tuple ext hext hflt cfg' ext' ss f (t + 1) x hvk hdk fun xs hxs => ?_)
+          subst hxs
+          refine tupAgree_of_tupR ext R _ _ ss xs (fun s' hs' x' hx' hrx => ?_) (hR.tuple ss xs hrsh)
+          exact ih s' (hszs s' (by simpa [shapeSchemas] using hs')) (agreeFrag2_mem ss s' hs' hfl) (t + 1 + 1) x'
+            (vokg_elem xs x' hx' hvk) (depthOK_elem (t + 1) xs x' hx' hdk) hrx
+        | struct_ fs =>
+          have hff : fragPFields a fs = true := by simpa [fragPShape] using hshf
+          have : dePayload env (t + 1) (deTyped env f) (.struct_ fs) = deTyped env (f + 1) (t + 1) (.struct_ fs false) := by
+            rw [deTyped_struct]; rfl
+          rw [this]
+          simp only [payloadFV]
+          refine Agree1.weak (agree_struct ext hext hflt cfg' ext' fs false f (t + 1) x hvk hdk ?_ ?_)
+          · intro xs hxs
+            subst hxs
+            refine tupAgree_of_tupR ext R _ _ _ xs (fun s' hs' x' hx' hrx => ?_) (hR.structArr fs false xs hrsh)
+            exact ih s' (hszs s' (by simpa [shapeSchemas] using hs')) (agreeFrag2_mem_fields fs s' hs' hff) (t + 1 + 1) x'
+              (vokg_elem xs x' hx' hvk) (depthOK_elem (t + 1) xs x' hx' hdk) hrx
+          · intro kvs' hkvs' kv' hx' i nm s' hni hfi
+            subst hkvs'
+            have hs' : s' ∈ fs.map (·.2) := List.mem_map.mpr ⟨(nm, s'), List.mem_of_getElem? hfi, rfl⟩
+            exact ih s' (hszs s' (by simpa [shapeSchemas] using hs')) (agreeFrag2_mem_fields fs s' hs' hff) (t + 1 + 1) kv'.2
+              (vokg_member kvs' kv' hx' hvk).2 (depthOK_member (t + 1) kvs' kv' hx' hdk)
+              (hR.structObj fs false kvs' hrsh kv' hx' i nm s' hni hfi)
+      · intro k x hkx sh hmem
+        subst hkx
+        exact shapeDe_eq_payloadFV cfg' ext' sh x (agreeFrag2_mem_variants vs k sh hmem hfr')
+          (fun fs hfs xs => hR.enumExcl vs k x hr fs (hfs ▸ hmem) xs)
+    | any =>
+      have ha : a = true := by simpa [fragP] using hfr
+      exact hL.any ha f t v hr hv hd
+    | f64 => rw [deTyped_f64]; exact hL.f64 v hr hv
+    | f32 => simp [fragP] at hfr
+
 /-- **the text leg on printed values**, for an invariant `R` on (schema, value) pairs closed under the positions visited:
     for every schema of the fragment and every value representable without `arbitrary_precision` whose floats are read back
     from `ryu`'s text (`floatsRT`), within the depth budget and admissible, the typed deserializer on the text `to_string`
@@ -305,15 +527,14 @@ theorem agree_gen {env : Env} (hflt : env.flt = false) (hapE : env.cfg.ap = fals
     ∀ (f : Nat) (s : Schema), Schema.size s ≤ f → fragP a s = true →
       ∀ (t : Nat) (v : JV), VOK v → Spec.WF.floatsRT (SJ.Proofs.CanonM.specCfg env.cfg) ext v = true → DepthOK env t v → R s v →
       Agree1w (deTyped env f t s) (FromValue.fromValue cfg' ext' s v) (T ext v) := by
-  intro f
-  induction f with
-  | zero => intro s hs; have := size_pos s; omega
-  | succ f ih =>
-    intro s hs hfr t v hv hF hd hr
-    cases s with
-    | bool => rw [deTyped_bool]; exact (agree_bool ext hext hflt cfg' hap ext' v hv).weak
-    | int w =>
-      rw [deTyped_int]
+  -- the invariant strengthened by what the number leaves need of the value (inherited by elements and members)
+  let c := SJ.Proofs.CanonM.specCfg env.cfg
+  have hQ : PosClosed (fun (_ : Schema) (v : JV) => VOK v ∧ Spec.WF.floatsRT c ext v = true) :=
+    posClosed_val _ (fun xs h x hx => ⟨vok_elem xs x hx h.1, frt_elem _ _ xs x hx (by simpa [Spec.WF.floatsRT] using h.2)⟩)
+      (fun kvs h kv hx => ⟨(vok_member kvs kv hx h.1).2, frt_member _ _ kvs kv hx (by simpa [Spec.WF.floatsRT] using h.2)⟩)
+  have hL : Leaves ext env cfg' ext' a (fun s v => R s v ∧ (VOK v ∧ Spec.WF.floatsRT c ext v = true)) := {
+    int := fun w v hr _ => by
+      obtain ⟨hr, hv, hF⟩ := hr
       by_cases h128 : is128 w = true
       · -- a 128-bit target: a float is left to the caller
         by_cases hfl : ∃ b, v = .num (.float b)
@@ -326,138 +547,17 @@ theorem agree_gen {env : Env} (hflt : env.flt = false) (hapE : env.cfg.ap = fals
         subst hb
         exact SJ.Proofs.TypedFloat.int_float_refused hflt hapE ext hext w h128 b (by simpa [VOK, shapeW, wfNumW] using hv)
           (by simpa [Spec.WF.floatsRT] using hF) rest pos hs
-    | unit => rw [deTyped_unit]; exact (agree_unit ext hext hflt cfg' hap ext' v hv).weak
-    | unitStruct =>
-      rw [deTyped_unitStruct]
-      have := agree_unit ext hext hflt cfg' hap ext' v hv
-      exact Agree1.weak (by simpa [FromValue.fromValue] using this)
-    | char => rw [deTyped_char]; exact (agree_char ext hext hflt cfg' hap ext' v hv).weak
-    | string => rw [deTyped_string]; exact (agree_string ext hext hflt cfg' hap ext' v hv).weak
-    | bytes =>
-      rw [deTyped_bytes]
-      refine Agree1.weak (agree_bytes ext hext hflt cfg' hap ext' t v hv hd fun xs hxs x hx b hb rest pos hs => ?_)
-      subst hxs; subst hb
+    f64 := fun v hr _ => (SJ.Proofs.TypedFloat.agree_f64 hflt hapE cfg' hap ext' ext hext v hr.2.1 hr.2.2 (hF64 v hr.1)).weak
+    u8 := fun xs hr _ x hx => by
+      obtain ⟨_, hv, hF⟩ := hr
+      refine (agree_int ext hext hflt cfg' hap ext' .u8 x (vok_elem xs x hx hv) fun b hb rest pos hs => ?_).weak
+      subst hb
       exact SJ.Proofs.TypedFloat.int_float_refused hflt hapE ext hext .u8 (by decide) b
         (by simpa [VOK, shapeW, wfNumW] using vok_elem xs _ hx hv)
         (by simpa [Spec.WF.floatsRT] using frt_elem _ _ xs _ hx (by simpa [Spec.WF.floatsRT] using hF)) rest pos hs
-    | ignored =>
-      rw [deTyped_ignored]
-      refine Agree1.weak ?_
-      intro rest pos hsep
-      simp only [FromValue.fromValue]
-      rw [ignoreValue_T ext hext env hflt v hv rest pos hsep]
-      rfl
-    | newtype s' =>
-      rw [deTyped_newtype]
-      have := ih s' (by simp only [Schema.size] at hs; omega) (by simpa [fragP] using hfr) t v hv hF hd (hR.newtype s' v hr)
-      simpa [FromValue.fromValue] using this
-    | option s' =>
-      exact agree_option_w ext hflt cfg' hap ext' s' f t v hv
-        (fun hnn => ih s' (by simp only [Schema.size] at hs; omega) (by simpa [fragP] using hfr) t v hv hF hd (hR.option s' v hr hnn))
-        (T_head ext hext v hv)
-    | seq s' =>
-      refine Agree1.weak (agree_seq ext hext hflt cfg' hap ext' s' f t v hv hd fun xs hxs x hx => ?_)
-      subst hxs
-      exact ih s' (by simp only [Schema.size] at hs; omega) (by simpa [fragP] using hfr) (t + 1) x (vok_elem xs x hx hv) (frt_elem _ _ xs x hx (by simpa [Spec.WF.floatsRT] using hF))
-        (depthOK_elem t xs x hx hd) (hR.seq s' xs hr x hx)
-    | tuple ss =>
-      refine Agree1.weak (agree_tuple ext hext hflt cfg' hap ext' ss f t v hv hd fun xs hxs => ?_)
-      subst hxs
-      refine tupAgree_of_tupR ext R _ _ ss xs (fun s' hs' x hx hrx => ?_) (hR.tuple ss xs hr)
-      have hsz := size_mem_list ss s' hs'
-      exact ih s' (by simp only [Schema.size] at hs; omega) (agreeFrag2_mem ss s' hs' (by simpa [fragP] using hfr)) (t + 1) x
-        (vok_elem xs x hx hv) (frt_elem _ _ xs x hx (by simpa [Spec.WF.floatsRT] using hF)) (depthOK_elem t xs x hx hd) hrx
-    | map k s' =>
-      have hfr' : keyFrag k = true ∧ fragP a s' = true := by simpa [fragP] using hfr
-      refine Agree1.weak (agree_map ext hext hflt cfg' hap ext' k (keyAgree_frag ext hext hflt k hfr'.1) s' f t v hv hd fun kvs hkvs kv hx => ?_)
-      subst hkvs
-      exact ih s' (by simp only [Schema.size] at hs; omega) hfr'.2 (t + 1) kv.2
-        (vok_member kvs kv hx hv).2 (frt_member _ _ kvs kv hx (by simpa [Spec.WF.floatsRT] using hF)) (depthOK_member t kvs kv hx hd) (hR.map k s' kvs hr kv hx)
-    | struct_ fs deny =>
-      have hfr' : fragPFields a fs = true := by simpa [fragP] using hfr
-      have hsize : ∀ s' ∈ fs.map (·.2), Schema.size s' ≤ f := by
-        intro s' hs'
-        obtain ⟨fld, hfld, rfl⟩ := List.mem_map.mp hs'
-        have := size_mem_fields fs fld hfld
-        simp only [Schema.size] at hs; omega
-      refine Agree1.weak (agree_struct ext hext hflt cfg' hap ext' fs deny f t v hv hd ?_ ?_)
-      · intro xs hxs
-        subst hxs
-        refine tupAgree_of_tupR ext R _ _ _ xs (fun s' hs' x hx hrx => ?_) (hR.structArr fs deny xs hr)
-        exact ih s' (hsize s' hs') (agreeFrag2_mem_fields fs s' hs' hfr') (t + 1) x (vok_elem xs x hx hv) (frt_elem _ _ xs x hx (by simpa [Spec.WF.floatsRT] using hF))
-          (depthOK_elem t xs x hx hd) hrx
-      · intro kvs hkvs kv hx i nm s' hni hfi
-        subst hkvs
-        have hs' : s' ∈ fs.map (·.2) := List.mem_map.mpr ⟨(nm, s'), List.mem_of_getElem? hfi, rfl⟩
-        exact ih s' (hsize s' hs') (agreeFrag2_mem_fields fs s' hs' hfr') (t + 1) kv.2 (vok_member kvs kv hx hv).2 (frt_member _ _ kvs kv hx (by simpa [Spec.WF.floatsRT] using hF))
-          (depthOK_member t kvs kv hx hd) (hR.structObj fs deny kvs hr kv hx i nm s' hni hfi)
-    | enum_ vs =>
-      have hfr' : fragPVariants a vs = true := by simpa [fragP] using hfr
-      refine Agree1.weak (agree_enum ext hext hflt cfg' hap ext' vs f t v hv hd ?_ ?_)
-      · intro k x kvs hkvs sh hmem
-        subst hkvs
-        have hshf := agreeFrag2_mem_variants vs k sh hmem hfr'
-        have hshsz := size_mem_variants vs (k, sh) hmem
-        have hrsh := hR.enumPayload vs k x kvs hr sh hmem
-        have hvk := (vok_member ((k, x) :: kvs) (k, x) (by simp) hv).2
-        have hdk := depthOK_member t ((k, x) :: kvs) (k, x) (by simp) hd
-        have hfk := frt_member _ _ ((k, x) :: kvs) (k, x) (by simp) (by simpa [Spec.WF.floatsRT] using hF)
-        simp only at hvk hdk hfk
-        have hszs : ∀ s' ∈ shapeSchemas sh, Schema.size s' ≤ f := by
-          intro s' hs'
-          have := size_shape sh s' hs'
-          simp only [Schema.size] at hs
-          simp only at hshsz
-          omega
-        cases sh with
-        | unit =>
-          simp only [dePayload, payloadFV]
-          exact (agree_unit ext hext hflt cfg' hap ext' x hvk).weak
-        | newtype s' =>
-          simp only [dePayload, payloadFV]
-          exact ih s' (hszs s' (by simp [shapeSchemas])) (by simpa [fragPShape] using hshf) (t + 1) x hvk hfk hdk hrsh
-        | tuple ss =>
-          have hfl : fragPList a ss = true := by
-            have : (!ss.isEmpty && fragPList a ss) = true := by simpa [fragPShape] using hshf
-            simp only [Bool.and_eq_true] at this; exact this.2
-          have : dePayload env (t + 1) (deTyped env f) (.tuple ss) = deTyped env (f + 1) (t + 1) (.tuple ss) := by
-            rw [deTyped_tuple]; rfl
-          rw [this]
-          simp only [payloadFV]
-          refine Agree1.weak (agree_tuple ext hext hflt cfg' hap ext' ss f (t + 1) x hvk hdk fun xs hxs => ?_)
-          subst hxs
-          refine tupAgree_of_tupR ext R _ _ ss xs (fun s' hs' x' hx' hrx => ?_) (hR.tuple ss xs hrsh)
-          exact ih s' (hszs s' (by simpa [shapeSchemas] using hs')) (agreeFrag2_mem ss s' hs' hfl) (t + 1 + 1) x'
-            (vok_elem xs x' hx' hvk) (frt_elem _ _ xs x' hx' (by simpa [Spec.WF.floatsRT] using hfk)) (depthOK_elem (t + 1) xs x' hx' hdk) hrx
-        | struct_ fs =>
-          have hff : fragPFields a fs = true := by simpa [fragPShape] using hshf
-          have : dePayload env (t + 1) (deTyped env f) (.struct_ fs) = deTyped env (f + 1) (t + 1) (.struct_ fs false) := by
-            rw [deTyped_struct]; rfl
-          rw [this]
-          simp only [payloadFV]
-          refine Agree1.weak (agree_struct ext hext hflt cfg' hap ext' fs false f (t + 1) x hvk hdk ?_ ?_)
-          · intro xs hxs
-            subst hxs
-            refine tupAgree_of_tupR ext R _ _ _ xs (fun s' hs' x' hx' hrx => ?_) (hR.structArr fs false xs hrsh)
-            exact ih s' (hszs s' (by simpa [shapeSchemas] using hs')) (agreeFrag2_mem_fields fs s' hs' hff) (t + 1 + 1) x'
-              (vok_elem xs x' hx' hvk) (frt_elem _ _ xs x' hx' (by simpa [Spec.WF.floatsRT] using hfk)) (depthOK_elem (t + 1) xs x' hx' hdk) hrx
-          · intro kvs' hkvs' kv' hx' i nm s' hni hfi
-            subst hkvs'
-            have hs' : s' ∈ fs.map (·.2) := List.mem_map.mpr ⟨(nm, s'), List.mem_of_getElem? hfi, rfl⟩
-            exact ih s' (hszs s' (by simpa [shapeSchemas] using hs')) (agreeFrag2_mem_fields fs s' hs' hff) (t + 1 + 1) kv'.2
-              (vok_member kvs' kv' hx' hvk).2 (frt_member _ _ kvs' kv' hx' (by simpa [Spec.WF.floatsRT] using hfk)) (depthOK_member (t + 1) kvs' kv' hx' hdk)
-              (hR.structObj fs false kvs' hrsh kv' hx' i nm s' hni hfi)
-      · intro k x hkx sh hmem
-        subst hkx
-        exact shapeDe_eq_payloadFV cfg' ext' sh x (agreeFrag2_mem_variants vs k sh hmem hfr')
-          (fun fs hfs xs => hR.enumExcl vs k x hr fs (hfs ▸ hmem) xs)
-    | any =>
-      have ha : a = true := by simpa [fragP] using hfr
-      exact (agree_any ext hext hflt cfg' hap ext' f t v hv hd (hAny ha v hr) hF).weak
-    | f64 =>
-      rw [deTyped_f64]
-      exact (SJ.Proofs.TypedFloat.agree_f64 hflt hapE cfg' hap ext' ext hext v hv hF (hF64 v hr)).weak
-    | f32 => simp [fragP] at hfr
+    any := fun ha f t v hr _ hd => (agree_any ext hext hflt cfg' hap ext' f t v hr.2.1 hd (hAny ha v hr.1) hr.2.2).weak }
+  intro f s hs hfr t v hv hF hd hr
+  exact agree_core ext hext hflt cfg' ext' _ (hR.and hQ) hL f s hs hfr t v hv.g hd ⟨hr, hv, hF⟩
 
 /-! ## the instance of C16: no struct variant written as an array (`JV.hasArrayPayload` over the schema's struct-variant names) -/
 
